@@ -155,6 +155,7 @@ type htxEvent struct {
 	lenKey ssa.Value
 	instr  ssa.Instruction
 	san    string // sanitiser name for evEsc
+	param  int    // for evRaw: index of the emitting function's own string parameter that is appended (+1; 0 = none)
 }
 
 type htxViolation struct {
@@ -512,6 +513,25 @@ func (h *htxEngine) extract(fn *ssa.Function) map[ssa.Instruction]htxEvent {
 				if k == evEsc {
 					ev.san = s
 				}
+				if k == evRaw {
+					// a string parameter of the emitter itself: constant at the call sites of a helper such as
+					// openLinkTag(name, ` href="`, def); resolved per call
+					op := x.Call.Args[1]
+					for {
+						if cv, ok := op.(*ssa.Convert); ok {
+							op = cv.X
+							continue
+						}
+						break
+					}
+					if prm, ok := op.(*ssa.Parameter); ok {
+						for i, q := range fn.Params {
+							if q == prm {
+								ev.param = i + 1
+							}
+						}
+					}
+				}
 				out[in] = ev
 				return
 			}
@@ -557,7 +577,22 @@ type htxConfig struct {
 
 // analyse interprets fn from the given entry lexer state and returns the exit states.
 func (h *htxEngine) analyse(fn *ssa.Function, entry lex) []lex {
+	return h.analyseB(fn, entry, nil)
+}
+
+// analyseB: bind gives constant strings for string parameters of fn at the call being analysed.
+func (h *htxEngine) analyseB(fn *ssa.Function, entry lex, bind map[int]string) []lex {
 	key := fmt.Sprintf("%p/%d", fn, entry)
+	if len(bind) > 0 {
+		var ks []int
+		for k := range bind {
+			ks = append(ks, k)
+		}
+		sort.Ints(ks)
+		for _, k := range ks {
+			key += fmt.Sprintf("/%d=%q", k, bind[k])
+		}
+	}
 	if r, ok := h.summary[key]; ok {
 		return r
 	}
@@ -643,8 +678,14 @@ func (h *htxEngine) analyse(fn *ssa.Function, entry lex) []lex {
 				continue
 			}
 			next := map[htxConfig]bool{}
+			evx := ev
+			if evx.kind == evRaw && evx.param > 0 {
+				if cs, ok := bind[evx.param-1]; ok {
+					evx.kind, evx.s = evConst, cs
+				}
+			}
 			for c := range cur {
-				for _, nl := range h.apply(fn, ev, c.lx) {
+				for _, nl := range h.apply(fn, evx, c.lx) {
 					next[htxConfig{nl, c.env}] = true
 				}
 			}
@@ -778,7 +819,18 @@ func (h *htxEngine) apply(fn *ssa.Function, ev htxEvent, l lex) []lex {
 		}
 		return out
 	case evCall:
-		r := h.analyse(ev.callee, l)
+		var bind map[int]string
+		if call, ok := ev.instr.(*ssa.Call); ok {
+			for i, a := range call.Call.Args {
+				if cs, ok := constString(a); ok {
+					if bind == nil {
+						bind = map[int]string{}
+					}
+					bind[i] = cs
+				}
+			}
+		}
+		r := h.analyseB(ev.callee, l, bind)
 		if len(r) == 0 {
 			return []lex{l}
 		}
